@@ -225,6 +225,7 @@ pub fn obs(graph: &ModuleGraph) -> Value {
       Ok(m) => module_json(m, true),
       Err(e) => json!({
         "error": e.to_string_with_range(),
+        "error_text": e.to_string(),
         "error_kind": err_kind(e),
         "referrer": e.maybe_referrer().map(range_json),
         "err_specifier": e.specifier().as_str(),
